@@ -73,3 +73,157 @@ Example C06_example :
              [NewCol 1 0 5 None; AddRow 4 "L" None (Some "r"%string) [(0%Z, 2); (0%Z, 3)]; ChgCoef 0 0 7] in
   colnames p = ["x1"%string] /\ rownames p = ["r"%string] /\ get_row p 0 = [(0%nat, 7); (0%nat, 3)] /\ nz p = 2%nat.
 Proof. vm_compute. repeat split; reflexivity. Qed.
+
+(* ===== L2: the concrete column store of lib.c (Store.Matrix: matbeg / matcnt / matind / matval / matsize / matfree,
+   relocation of columns, holes, growth by reallocation; Store.L2: which matrix_* / ILLlib_* functions a public call runs).
+   Tie to the code: harness/h_store.c DUMPM prints the raw arrays of p->qslp->A with structmap, rowmap, nzcount after
+   every op; ocaml/drv_store.ml replays the same ops on the extracted model (l2_step_c = l2_step 100 1000); checks/C06.py
+   demands equality of all arrays after every op of every history.
+   Result type of the model: Ok m | Rej (the C function returns 1 before writing) | Fault (the C code would index outside
+   its arrays or reach exit(1)).  First the Ok results (WF preserved, abs commutes), then fault freedom under WF. ===== *)
+From QSX Require Import Store.Api Store.Matrix Store.MatrixInv Store.L2 Store.L2Refine.
+
+(* the representation invariant: counts consistent, matfree <= matsize, the last matfree slots are free (-1), every column
+   lies inside the used part, stored row indices are in range, an empty column owns one slot marked 1, columns do not overlap *)
+Theorem C06_L2_WF_empty : WF empty_mat.
+Proof. exact WF_empty. Qed.
+Print Assumptions C06_L2_WF_empty.
+
+(* matrix_addrow (in place / relocate / matrix_addrow_end) preserves WF and appends, to every column, the entries the new row
+   has for it, in the order given (Spec.app_row on entry lists) - for all states, all entry lists incl. repeated columns *)
+Theorem C06_L2_addrow : forall extra_mat m ents m',
+  WF m -> mat_addrow extra_mat m ents = Ok m' -> WF m' /\ abs m' = app_row_ent (abs m) 0 (mrows m) ents.
+Proof. exact abs_addrow. Qed.
+Print Assumptions C06_L2_addrow.
+
+Theorem C06_L2_app_row_is_spec : forall cols j0 i e, map sc_ent (app_row cols j0 i e) = app_row_ent (map sc_ent cols) j0 i e.
+Proof. exact app_row_sc_ent. Qed.
+Print Assumptions C06_L2_app_row_is_spec.
+
+(* matrix_addcol: a new last column with exactly the given entries; the others unchanged *)
+Theorem C06_L2_addcol : forall extra_cols extra_mat m ents m',
+  WF m -> mat_addcol extra_cols extra_mat m ents = Ok m' -> WF m' /\ abs m' = abs m ++ [ents].
+Proof. exact abs_addcol. Qed.
+Print Assumptions C06_L2_addcol.
+
+(* matrix_addcoef: overwrite the first stored entry of that row, else append one (Spec.set_first), in whichever of the four
+   branches (own slot of an empty column / free slot behind the column / move behind the used part / rebuild) *)
+Theorem C06_L2_addcoef : forall extra_mat m i j v m' nw,
+  WF m -> mat_addcoef extra_mat m i j v = Ok (m', nw) -> WF m' /\ abs m' = upd_nth j (set_first i v) (abs m).
+Proof. exact abs_addcoef. Qed.
+Print Assumptions C06_L2_addcoef.
+
+(* delcols_work: the unmarked columns, in order; = Spec's restrict (remove_nth from the highest index down) *)
+Theorem C06_L2_delcols : forall m mk m', WF m -> mat_delcols m mk = Ok m' -> WF m' /\ abs m' = keepb mk (abs m).
+Proof. exact abs_delcols. Qed.
+Print Assumptions C06_L2_delcols.
+
+Theorem C06_L2_keepb_is_restrict : forall (l : list (list (nat * Q))) ds, NoDup ds -> keepb (marks (length l) ds) l = restrict l ds.
+Proof. intros l ds. exact (keepb_marks_spec l ds). Qed.
+Print Assumptions C06_L2_keepb_is_restrict.
+
+(* the packing loop of ILLlib_delrows: entries of deleted rows disappear, the others are renumbered; = Spec.del_ent from the
+   highest deleted row down *)
+Theorem C06_L2_delrows : forall m ds m',
+  WF m -> NoDup ds -> mat_delrows m (marks (mrows m) ds) = Ok m' -> WF m' /\ abs m' = map (del_rows_ent ds) (abs m).
+Proof. exact abs_delrows. Qed.
+Print Assumptions C06_L2_delrows.
+
+Theorem C06_L2_del_rows_ent_is_spec : forall ds e, NoDup ds -> del_rows_ent ds e = fold_left (fun e i => del_ent i e) (sort_desc ds) e.
+Proof. exact del_rows_ent_spec. Qed.
+Print Assumptions C06_L2_del_rows_ent_is_spec.
+
+(* the whole store (matrix + structmap + rowmap) refines the reference model: after any accepted call, and so after any
+   history, the entry lists of the structural columns read through structmap are those of the reference model, and the
+   invariants (WF of the matrix, structmap / rowmap injective, disjoint, in range, one logical per row) hold *)
+Theorem C06_L2_step_refines : forall M extra_cols extra_mat s p o p' t s',
+  refines s p -> pstep M p o = (p', ROk t) -> l2_step extra_cols extra_mat p s o = Ok s' -> refines s' p'.
+Proof. exact l2_step_refines. Qed.
+Print Assumptions C06_L2_step_refines.
+
+Theorem C06_L2_history_refines : forall M extra_cols extra_mat l s p s',
+  refines s p -> l2_run M extra_cols extra_mat p s l = Ok s' -> refines s' (prun M p l).
+Proof. exact l2_run_refines. Qed.
+Print Assumptions C06_L2_history_refines.
+
+Theorem C06_L2_refines_empty : forall M mx, refines empty_lstore (empty_prob M mx).
+Proof. exact refines_empty. Qed.
+Print Assumptions C06_L2_refines_empty.
+
+(* ----- fault freedom: the model never indexes outside its arrays, and never rejects what the reference model accepts ----- *)
+From QSX Require Import Store.MatrixSafe Store.L2Safe.
+Open Scope nat_scope.
+
+(* the executable invariant evaluated by checks/C06.py on every model state implies WF *)
+Theorem C06_L2_wf_check_sound : forall m, wf_check m = true -> WF m.
+Proof. exact wf_check_sound. Qed.
+Print Assumptions C06_L2_wf_check_sound.
+
+(* matrix_addrow_end allocates enough: the widths of disjoint columns inside the used part add up to at most the used part *)
+Theorem C06_L2_widths_le_used : forall R m, WFr R m -> lsum (map (fun j => width (cntj m j)) (seq 0 (mcols m))) <= used m.
+Proof. exact widths_le_used. Qed.
+Print Assumptions C06_L2_widths_le_used.
+
+Theorem C06_L2_addcol_safe : forall extra_cols extra_mat m ents,
+  0 < extra_cols -> WF m -> Forall (fun e => fst e < mrows m) ents -> exists m', mat_addcol extra_cols extra_mat m ents = Ok m'.
+Proof. exact mat_addcol_safe. Qed.
+Print Assumptions C06_L2_addcol_safe.
+
+Theorem C06_L2_addcoef_safe : forall extra_mat m i j v, WF m -> i < mrows m -> j < mcols m -> exists r, mat_addcoef extra_mat m i j v = Ok r.
+Proof. exact mat_addcoef_safe. Qed.
+Print Assumptions C06_L2_addcoef_safe.
+
+(* matrix_addrow with distinct column indices: the estimate delta < matfree suffices for the whole in-place loop (invariant:
+   space still needed by blocked columns + 1 if a column ends at the used part <= matfree) *)
+Theorem C06_L2_addrow_safe : forall extra_mat m ents,
+  WF m -> Forall (fun e => fst e < mcols m) ents -> NoDup (map fst ents) -> exists m', mat_addrow extra_mat m ents = Ok m'.
+Proof. exact mat_addrow_safe. Qed.
+Print Assumptions C06_L2_addrow_safe.
+
+(* with a repeated column index the loop can leave the array (exit(1) in the library: finding F-C06-matrix-addrow-exit):
+   witness on a 5-slot array satisfying the invariant; the same row with distinct columns is fine *)
+Theorem C06_L2_addrow_repeated_column_refuted :
+  let m := {| slots := [(0%Z, 1%Q); (1%Z, 1%Q); dslot; (0%Z, 1%Q); dslot];
+              beg := [0; 3]; cnt := [2; 1]; mfree := 1; mrows := 2; colsize := 100 |} in
+  wf_check m = true /\ mat_addrow 1000 m [(0, 1%Q); (0, 1%Q)] = Fault /\
+  exists m', mat_addrow 1000 m [(0, 1%Q); (1, 1%Q)] = Ok m'.
+Proof. exact mat_addrow_repeated_column_faults. Qed.
+Print Assumptions C06_L2_addrow_repeated_column_refuted.
+
+Theorem C06_L2_delcols_safe : forall m mk, WF m -> length mk = mcols m -> exists m', mat_delcols m mk = Ok m'.
+Proof. exact mat_delcols_safe. Qed.
+Print Assumptions C06_L2_delcols_safe.
+
+Theorem C06_L2_delrows_safe : forall m rmk, WF m -> length rmk = mrows m -> exists m', mat_delrows m rmk = Ok m'.
+Proof. exact mat_delrows_safe. Qed.
+Print Assumptions C06_L2_delrows_safe.
+
+(* the whole interface: every call the reference model accepts runs on the concrete store without fault or rejection and
+   keeps the refinement (good = refines + every logical column is the singleton of its row), for every history in which
+   no added row lists a column twice; QSload_prob likewise *)
+Theorem C06_L2_step_safe : forall M extra_cols extra_mat, 0 < extra_cols -> forall s p o p' t,
+  good s p -> pstep M p o = (p', ROk t) -> rows_nodup o -> exists s', l2_step extra_cols extra_mat p s o = Ok s' /\ good s' p'.
+Proof. exact l2_step_safe. Qed.
+Print Assumptions C06_L2_step_safe.
+
+Theorem C06_L2_history_safe : forall M extra_cols extra_mat l, 0 < extra_cols -> forall s p, good s p -> Forall rows_nodup l ->
+  exists s', l2_run M extra_cols extra_mat p s l = Ok s' /\ good s' (prun M p l).
+Proof. exact l2_run_safe. Qed.
+Print Assumptions C06_L2_history_safe.
+
+Theorem C06_L2_load_good : forall M extra_cols extra_mat mx cols rows p, 0 < extra_cols ->
+  load_prob M mx cols rows = Some p -> exists s, l2_load extra_cols extra_mat cols rows = Ok s /\ good s p.
+Proof. exact l2_load_good. Qed.
+Print Assumptions C06_L2_load_good.
+Close Scope nat_scope.
+
+(* the definitions compute; a history with a relocation: three rows over two columns make column 0 move behind the used part
+   (matbeg = [10; 1; ...]); the abstraction is what the reference model stores *)
+Example C06_L2_example :
+  let ops := [NewCol 1 0 5 None; NewCol 1 0 5 None; AddRow 4 "L" None None [(0%Z, 2); (1%Z, 3)]; AddRow 1 "G" None None [(0%Z, 5)]; ChgCoef 0 1 7] in
+  let p := prun 1000 (empty_prob 1000 false) ops in
+  match l2_run 1000 100 1000 (empty_prob 1000 false) empty_lstore ops with
+  | Ok s => ents_of s = map sc_ent (p_cols p) /\ lwf_check s = true /\ begj (lA s) 0 <> 0%nat
+  | _ => False
+  end.
+Proof. vm_compute. repeat split; try reflexivity. discriminate. Qed.
